@@ -9,6 +9,7 @@
 From Coq Require Import ZArith List Bool QArith Qround.
 Import ListNotations.
 From GV Require Import Common.Wire Common.PyInt gen.Gen_array.
+From GV Require Export gen.Gen_stat.
 Open Scope Z_scope.
 
 Notation idx := (list Z) (only parsing).
@@ -149,7 +150,7 @@ Fixpoint slices_mask (shape : list Z) (sl : list slice) (i : idx) : bool :=
 
 (* ---------- views with integer entries (they reach compute_statistic through IndexedData and the public API) ---------- *)
 
-Inductive ventry := VInt (i : Z) | VSlice (s : slice).
+(* ventry (VInt | VSlice) is defined in the generated file gen/Gen_stat.v *)
 
 (* what a view does to one axis: fix a position (the axis disappears) or select positions *)
 Inductive axis_sel := Fixed (p : Z) | Positions (l : list Z).
@@ -327,7 +328,7 @@ Section Stat.
     map (fun '(k, x) => if (a <=? k) && (k <? b) then v [k - a] else x)
         (combine (range0 (zlen l)) l).
 
-  Definition slice_of_pair (p : Z * Z) : slice := Slice (Some (fst p)) (Some (snd p)) None.
+  (* slice_of_pair : gen/Gen_stat.v *)
 
   Definition chunk_len (shape : list Z) (ai : Z) (n_chunk_max : Z) : Z :=
     Z.max 1 (znth shape ai * n_chunk_max / zprod shape).
@@ -394,6 +395,84 @@ Section Stat.
       end
     end.
 End Stat.
+
+
+(* ---------- the translated skeleton of Data.compute_statistic (coq/gen/Gen_stat.v) on the model's arrays ----------
+   The K_* operations of the generated Section are instantiated with functional n-d arrays (shape, index -> value);
+   this block is the hand-written model of numpy's semantics for exactly those operations. *)
+Section GenInst.
+  Variables A res : Type.
+  Variable R : list A -> res.
+  Variable nan zero : res.
+  Variables isfin ispos : A -> bool.       (* np.isfinite(x), x > 0 *)
+  Variable shape : list Z.
+  Variable a : idx -> A.                   (* the component *)
+
+  Definition garr : Type := (list Z * (idx -> A))%type.
+  Definition gmarr : Type := (list Z * (idx -> bool))%type.
+  Definition gres : Type := (list Z * (idx -> res))%type.
+
+  (* utils.compute_statistic: keep = ones; if finite: keep &= isfinite(data); if positive: keep &= data > 0 *)
+  Definition filt_of (finite positive : bool) : A -> bool :=
+    fun x => (negb finite || isfin x) && (negb positive || ispos x).
+
+  Definition axes_of (ax : pyaxis) : option (list Z) :=
+    match ax with AxNone => None | AxInt i => Some [i] | AxTuple l => Some l end.
+
+  Definition g_get_data (_ : unit) (v : pyview) : garr :=
+    let sels := view_sel shape (view_entries v) in (sel_shape sels, fun j => a (to_under_e sels j)).
+  Definition g_is_slice_state (s : selection) : bool := match s with SelSlices _ => true | _ => false end.
+  Definition g_truthy (s : selection) : bool := match s with SelNone => false | _ => true end.
+  Definition g_mask_fun (s : selection) : idx -> bool :=
+    match s with SelNone => fun _ => false | SelMask m => m | SelSlices sl => slices_mask shape sl end.
+  Definition g_to_mask (s : selection) (v : pyview) : gmarr :=
+    let sels := view_sel shape (view_entries v) in (sel_shape sels, fun j => g_mask_fun s (to_under_e sels j)).
+  Definition g_to_array (s : selection) (_ : unit) : garr :=
+    let pos := view_pos shape (match s with SelSlices sl => sl | _ => [] end) in (vshape pos, fun j => a (to_under pos j)).
+  Definition g_any (m : gmarr) : bool := existsb (snd m) (box (fst m)).
+  Definition g_ndim (m : gmarr) : Z := zlen (fst m).
+  Definition g_any_axes (m : gmarr) (axes : list Z) : gmarr :=
+    let red := map (fun i => existsb (Z.eqb i) axes) (range0 (zlen (fst m))) in
+    (out_shape (fst m) red, fun o => existsb (snd m) (lane0 (fst m) red o)).
+  Definition g_broadcast_to (m : gmarr) (sh : list Z) : gmarr := (sh, snd m).
+  Definition g_where0 (m : gmarr) : list Z := filter (fun i => snd m [i]) (range0 (hd 0 (fst m))).
+  Definition sl_lo (s : slice) : Z := match sl_start s with Some k => k | None => 0 end.
+  Definition sl_hi (s : slice) : Z := match sl_stop s with Some k => k | None => 0 end.
+  (* m[slices] for slices slice(lo, hi) inside the array (the only ones the skeleton builds) *)
+  Definition g_mask_getitem (m : gmarr) (sl : list slice) : gmarr :=
+    (map (fun s => sl_hi s - sl_lo s) sl, fun j => snd m (zadd j (map sl_lo sl))).
+  Definition g_compute_statistic (_ : unit) (d : garr) (m : option gmarr) (ax : pyaxis) (finite positive : bool) (_ : unit) : gres :=
+    let red := red_of_axes (zlen (fst d)) (axes_of ax) in
+    let filt := filt_of finite positive in
+    (out_shape (fst d) red,
+     reduce A res R (fst d) (snd d) (fun j => match m with Some m => snd m j | None => true end && filt (snd d j)) red).
+  (* x[slices] = v  for slices slice(lo, hi) *)
+  Definition g_setitem (x : gres) (sl : list slice) (v : gres) : gres :=
+    let bounds := map (fun s => (sl_lo s, sl_hi s)) sl in
+    (fst x, fun o => if inside bounds o then snd v (zsub_starts o bounds) else snd x o).
+
+  Local Notation WITH_OPS f :=
+    (f unit unit selection unit garr gmarr gres shape
+      g_get_data g_is_slice_state g_truthy g_to_mask g_to_array (fun m : gmarr => m) (fun d : garr => d) g_any g_ndim (@fst (list Z) (idx -> bool))
+      g_any_axes g_broadcast_to g_where0 list_min list_max g_mask_getitem
+      (fun _ : garr => false) (fun d : garr => d) (fun d : garr => zprod (fst d)) (fun (d : garr) (m : option gmarr) (_ : option Z) => (d, m))
+      g_compute_statistic (fun r : gres => zlen (fst r)) (([], fun _ => nan) : gres) (fun sh => ((sh, fun _ => nan) : gres))
+      (fun sh => ((sh, fun _ => zero) : gres)) (fun r : gres => ((fst r, fun _ => nan) : gres)) g_setitem).
+
+  Definition g_rec_t : Type := rec_t unit unit selection unit gres.
+  (* the loop bodies and the function body of the generated file, on the model's arrays *)
+  Definition g_loop1 : gmarr -> gmarr -> list slice -> Z -> list slice :=
+    compute_statistic_loop1 gmarr g_ndim (@fst (list Z) (idx -> bool)) g_any_axes g_broadcast_to g_where0 list_min list_max.
+  Definition g_loop2 : pyview -> list slice -> gmarr -> list ventry * Z * bool * bool -> Z -> list ventry * Z * bool * bool :=
+    compute_statistic_loop2 gmarr shape (@fst (list Z) (idx -> bool)).
+  Definition gen_step (rec : g_rec_t) (fuel : nat) (s : selection) (ax : pyaxis) (finite positive : bool) (v : pyview) (ncm : Z)
+    : result gres :=
+    WITH_OPS Gen_stat.compute_statistic_step rec fuel tt tt s ax finite positive tt v None ncm.
+  Definition gen_rec (rfuel fuel : nat) : g_rec_t := WITH_OPS Gen_stat.compute_statistic rfuel fuel.
+  Definition gen_compute_statistic (rfuel fuel : nat) (s : selection) (ax : pyaxis) (finite positive : bool) (v : pyview) (ncm : Z)
+    : result gres :=
+    gen_rec rfuel fuel tt tt s ax finite positive tt v None ncm.
+End GenInst.
 
 (* ---------- histograms ---------- *)
 Open Scope Q_scope.
@@ -487,6 +566,64 @@ Definition histogram1 (log : bool) (lo hi llo lhi : Q) (n : Z) (pts : list (opti
 
 Close Scope Q_scope.
 
+
+(* ---------- the translated skeleton of Data.compute_histogram (coq/gen/Gen_stat.v) on lists of points ----------
+   arrays = lists of (value, image of the value under log10), None = NaN / +-inf / log of a non-positive value;
+   numbers (range ends) = the same pairs; booleans arrays = lists of bool.  This block is the hand-written model of numpy's
+   semantics for the H_* operations; the 10-ulp widening of the upper range end has no counterpart in exact arithmetic
+   (spacing = 0): its purpose -- values equal to the upper end fall into the last bin -- is the convention of hist1. *)
+Section HistInst.
+  Open Scope Q_scope.
+  Definition hval : Type := (option Q * option Q)%type.
+  Definition hnum : Type := (option Q * option Q)%type.
+  Variable comps : list (list hval).          (* the components: 0 = x, 1 = y, 2 = weights *)
+
+  Definition h_cmp (f : Q -> Q -> bool) (a : list hval) (n : hnum) : list bool :=
+    map (fun v => match fst v, fst n with Some q, Some b => f q b | _, _ => false end) a.
+  Definition h_num2 (f : Q -> Q -> Q) (a b : hnum) : hnum :=
+    (match fst a, fst b with Some x, Some y => Some (f x y) | _, _ => None end, None).
+  Definition h_numb (f : Q -> Q -> bool) (a b : hnum) : bool :=
+    match fst a, fst b with Some x, Some y => f x y | _, _ => false end.
+  Definition h_index (a : list hval) (m : list bool) : list hval := map fst (filter snd (combine a m)).
+  Definition h_weights (n : nat) (w : option (list hval)) : list Q :=
+    match w with Some ws => map (fun v => match fst v with Some q => q | None => 0 end) ws | None => repeat 1 n end.
+  Definition h_hist1d (x : list hval) (r : hnum * hnum) (n : Z) (w : option (list hval)) : hist_out :=
+    match fst (fst r), fst (snd r) with
+    | Some lo, Some hi =>
+      let p := map (fun '(v, wv) => (fst v, true, wv)) (combine x (h_weights (length x) w)) in
+      HBins (hist1 lo hi n p) (edge1 lo hi n p)
+    | _, _ => HError                       (* fast_histogram: range parameters must be finite *)
+    end.
+  Definition h_hist2d (x y : list hval) (r : list (hnum * hnum)) (bins : list Z) (w : option (list hval)) : hist_out :=
+    match r with
+    | [(xlo, xhi); (ylo, yhi)] =>
+      match fst xlo, fst xhi, fst ylo, fst yhi with
+      | Some a, Some b, Some c, Some d =>
+        let p := map (fun '(vx, vy, wv) => (fst vx, fst vy, true, wv)) (combine (combine x y) (h_weights (length x) w)) in
+        HBins (hist2 a b c d (znth bins 0) (znth bins 1) p) []
+      | _, _, _, _ => HError
+      end
+    | _ => HError
+    end.
+
+  Definition gen_compute_histogram (cids : list Z) (hasw : bool) (range : list (hnum * hnum)) (bins : list Z) (log : option (list bool))
+             (sel : option (list bool)) : result hist_out :=
+    Gen_stat.compute_histogram Z (option (list bool)) (list hval) (list bool) hnum unit hist_out
+      0%Z [] (None, None) HError
+      (fun c => nth (Z.to_nat c) comps []) (fun st => match st with Some m => m | None => [] end)
+      (fun st => match st with Some _ => false | None => true end)
+      (fun _ => false) (fun a => a) h_index (fun a => zlen a) (fun a => zlen a) (fun x y w _ => (x, y, w, tt)) tt
+      (h_cmp (fun q b => qle_b b q)) (h_cmp (fun q b => qle_b q b))
+      (fun a b => map (fun '(u, v) => andb u v) (combine a b)) (map negb)
+      (fun a => map (fun v => match fst v with Some _ => false | None => true end) a)
+      (fun _ => false) (fun a => a) (fun n => n)
+      (fun z => (Some (inject_Z z), None)) (h_numb qlt_b) (h_numb Qeq_bool) (h_num2 Qplus) (h_num2 Qmult)
+      (fun n => n) (fun _ => (Some 0, None)) (fun n => (snd n, snd n)) (map (fun v => (snd v, snd v)))
+      (fun _ => HZeros) h_hist1d h_hist2d (fun h _ => h)
+      cids (if hasw then Some 2%Z else None) range bins log sel None.
+  Close Scope Q_scope.
+End HistInst.
+
 (* ---------- wire ---------- *)
 Definition dec_slice (t : tree) : slice :=
   Slice (opt_z (kid 0 t)) (opt_z (kid 1 t)) (opt_z (kid 2 t)).
@@ -536,6 +673,37 @@ Definition dec_pt1 (t : tree) : option Q * option Q * bool * Q :=
 Definition dec_pt2 (t : tree) : option Q * option Q * bool * Q :=
   (dec_optq (kid 0 t), dec_optq (kid 1 t), negb (tag (kid 2 t) =? 0), dec_q (kid 3 t)).
 
+
+(* the same case through the TRANSLATED skeleton: the per-cell facts np.isfinite(x), x > 0 travel as flags, the
+   finite / positive arguments as themselves; axis keeps its Python form (None | int | tuple) *)
+Definition dec_axis (t : tree) : pyaxis :=
+  match t with T 0 _ => AxNone | T 2 (T i _ :: _) => AxInt i | T _ l => AxTuple (map tag l) end.
+Definition dec_pyview (t : tree) : pyview :=
+  match t with T 0 _ => PVNone | T 2 l => PVList (map dec_ventry l) | T 3 _ => PVEllipsis | T _ l => PVTuple (map dec_ventry l) end.
+Definition run_stat_gen (shape : list Z) (view : pyview) (selt : tree) (finflags posflags : list bool) (finite positive : bool)
+           (ax : pyaxis) (ncm : Z) : tree :=
+  let a := fun i => flat_index shape i in
+  let s := match selt with
+           | T 0 _ => SelNone
+           | T 1 [mk] => let mb := to_bools mk in SelMask (fun i => nthb mb (flat_index shape i))
+           | T _ l => SelSlices (map dec_slice l)
+           end in
+  match gen_compute_statistic Z (list Z) (fun l => l) [] [-1] (fun c => nthb finflags c) (fun c => nthb posflags c) shape a
+          2 (fuel_for shape) s ax finite positive view ncm with
+  | Err e => err e
+  | Ok (osh, r) => T 1 [zs osh; T 0 (map (fun o => zs (r o)) (box osh))]
+  end.
+
+(* histogram cases through the TRANSLATED skeleton *)
+Definition mk_num (v l : Q) : hnum := (Some v, if Qle_bool v 0 then None else Some l).
+Definition enc_hist (r : result hist_out) (with_edges : bool) : tree :=
+  match r with
+  | Err e => err e
+  | Ok HZeros => T 2 []
+  | Ok HError => err ValueError
+  | Ok (HBins l e) => if with_edges then T 1 [T 0 (map enc_q l); T 0 (map enc_q e)] else T 1 [T 0 (map enc_q l)]
+  end.
+
 Definition run_case (t : tree) : tree :=
   match t with
   | T 1 [sh; vw; selt; kf; ax; T ncm _] =>
@@ -548,6 +716,23 @@ Definition run_case (t : tree) : tree :=
       end
   | T 3 [xlo; xhi; ylo; yhi; T nx _; T ny _; T _ pts] =>
       T 1 [T 0 (map enc_q (hist2 (dec_q xlo) (dec_q xhi) (dec_q ylo) (dec_q yhi) nx ny (map dec_pt2 pts)))]
+  | T 6 [sh; vw; selt; ff; pf; T fin _; T pos _; ax; T ncm _] =>
+      run_stat_gen (to_zs sh) (dec_pyview vw) selt (to_bools ff) (to_bools pf) (negb (fin =? 0)) (negb (pos =? 0)) (dec_axis ax) ncm
+  | T 7 [T lg _; T haslog _; lo; hi; llo; lhi; T n _; T hasw _; T hassel _; T _ pts] =>
+      let p := map dec_pt1 pts in
+      let xs := map (fun '(x, lx, _, _) => (x, lx)) p in
+      let ws := map (fun '(_, _, _, w) => (Some w, None)) p in
+      let sel := if hassel =? 0 then None else Some (map (fun '(_, _, s, _) => s) p) in
+      enc_hist (gen_compute_histogram [xs; []; ws] [0] (negb (hasw =? 0)) [(mk_num (dec_q lo) (dec_q llo), mk_num (dec_q hi) (dec_q lhi))] [n]
+                                      (if haslog =? 0 then None else Some [negb (lg =? 0)]) sel) true
+  | T 8 [xlo; xhi; ylo; yhi; T nx _; T ny _; T hasw _; T hassel _; T _ pts] =>
+      let p := map dec_pt2 pts in
+      let xs := map (fun '(x, _, _, _) => (x, None)) p in
+      let ys := map (fun '(_, y, _, _) => (y, None)) p in
+      let ws := map (fun '(_, _, _, w) => (Some w, None)) p in
+      let sel := if hassel =? 0 then None else Some (map (fun '(_, _, s, _) => s) p) in
+      enc_hist (gen_compute_histogram [xs; ys; ws] [0; 1] (negb (hasw =? 0))
+                  [((Some (dec_q xlo), None), (Some (dec_q xhi), None)); ((Some (dec_q ylo), None), (Some (dec_q yhi), None))] [nx; ny] None sel) false
   (* pieces, for finer-grained correspondence *)
   | T 4 [sh; vw; T _ cells] =>
       (* subarray_slices and the recombined view for a set of true cells of the viewed mask *)
